@@ -65,24 +65,30 @@ def _shape(k, s, rels):
                 tcs += f"<a:tc{attr}>{_txbody(cell, 'a:txBody')}<a:tcPr/></a:tc>"
             rows += f'<a:tr h="1000">{tcs}</a:tr>'
         grid = "".join('<a:gridCol w="1000"/>' for _ in range(ncols))
-        return (f'<p:graphicFrame><p:nvGraphicFramePr><p:cNvPr id="{k+2}" name="Table {k}"/><p:cNvGraphicFramePr/>'
-                f'<p:nvPr/></p:nvGraphicFramePr>{_xfrm(k, "p")}<a:graphic><a:graphicData '
-                'uri="http://schemas.openxmlformats.org/drawingml/2006/table"><a:tbl><a:tblPr/>'
-                f'<a:tblGrid>{grid}</a:tblGrid>{rows}</a:tbl></a:graphicData></a:graphic></p:graphicFrame>')
+        frame = (f'<p:graphicFrame><p:nvGraphicFramePr><p:cNvPr id="{k+2}" name="Table {k}"/><p:cNvGraphicFramePr/>'
+                 f'<p:nvPr/></p:nvGraphicFramePr>{_xfrm(k, "p")}<a:graphic><a:graphicData '
+                 'uri="http://schemas.openxmlformats.org/drawingml/2006/table"><a:tbl><a:tblPr/>'
+                 f'<a:tblGrid>{grid}</a:tblGrid>{rows}</a:tbl></a:graphicData></a:graphic></p:graphicFrame>')
+        return _group(k, frame) if k % 2 == 1 else frame        # a table at an odd position sits inside a group shape
     ph = {"title": '<p:ph type="title"/>', "body": '<p:ph type="body" idx="1"/>', "text": ""}[kind]
     paras = [s[1]] if kind == "title" else s[1]
     sp = (f'<p:sp><p:nvSpPr><p:cNvPr id="{k+2}" name="Shape {k}"/><p:cNvSpPr/><p:nvPr>{ph}</p:nvPr></p:nvSpPr>'
           f'<p:spPr>{_xfrm(k)}</p:spPr>{_txbody(paras)}</p:sp>')
     if kind == "text" and k % 2 == 1:
-        # a free text box at an odd position sits inside a group shape (child coordinates = slide coordinates)
-        sp = (f'<p:grpSp><p:nvGrpSpPr><p:cNvPr id="{k+200}" name="Group {k}"/><p:cNvGrpSpPr/><p:nvPr/></p:nvGrpSpPr>'
-              '<p:grpSpPr><a:xfrm><a:off x="0" y="0"/><a:ext cx="9144000" cy="6858000"/><a:chOff x="0" y="0"/>'
-              f'<a:chExt cx="9144000" cy="6858000"/></a:xfrm></p:grpSpPr>{sp}</p:grpSp>')
+        sp = _group(k, sp)          # a free text box at an odd position sits inside a group shape
     return sp
 
 
-def _pic(k, n, rid):
-    return (f'<p:pic><p:nvPicPr><p:cNvPr id="{k+2}" name="Picture {n}"/><p:cNvPicPr/><p:nvPr/></p:nvPicPr>'
+def _group(k, inner):
+    """A group shape around one shape (child coordinates = slide coordinates)."""
+    return (f'<p:grpSp><p:nvGrpSpPr><p:cNvPr id="{k+200}" name="Group {k}"/><p:cNvGrpSpPr/><p:nvPr/></p:nvGrpSpPr>'
+            '<p:grpSpPr><a:xfrm><a:off x="0" y="0"/><a:ext cx="9144000" cy="6858000"/><a:chOff x="0" y="0"/>'
+            f'<a:chExt cx="9144000" cy="6858000"/></a:xfrm></p:grpSpPr>{inner}</p:grpSp>')
+
+
+def _pic(k, n, rid, descr=None):
+    alt = f' descr="{escape(descr)}"' if descr else ""
+    return (f'<p:pic><p:nvPicPr><p:cNvPr id="{k+2}" name="Picture {n}"{alt}/><p:cNvPicPr/><p:nvPr/></p:nvPicPr>'
             f'<p:blipFill><a:blip r:embed="{rid}"/></p:blipFill><p:spPr>{_xfrm(k)}</p:spPr></p:pic>')
 
 
@@ -121,7 +127,7 @@ def write_pptx(deck: dict) -> bytes:
                 srels.append((irid, f"{REL}/image", img["target"], bool(img.get("external"))))
             if img.get("part") and img.get("data") is not None:
                 files[img["part"]] = img["data"]
-            shapes += _pic(k, m, irid)
+            shapes += _pic(k, m, irid, img.get("descr"))
             k += 1
         if s.get("notes"):
             srels.append(("rIdN", f"{REL}/notesSlide", f"../notesSlides/notesSlide{n}.xml", False))
